@@ -87,7 +87,20 @@ def speedup():
     _FAST[0] = True
 
 
-def parse_dip(text_str, base_env=None):
+def split_pieces(text_str, rnd):
+    """The same text handed over in 2-3 consecutive pieces (several add_string calls): the lines are parsed as one text."""
+    lines = text_str.rstrip("\n").split("\n")
+    if len(lines) < 2 or '"""' in text_str:
+        return None
+    cuts = sorted(set(rnd.sample(range(1, len(lines)), min(len(lines) - 1, rnd.choice([1, 2])))))
+    out, a = [], 0
+    for c in cuts + [len(lines)]:
+        out.append("\n".join(lines[a:c]) + "\n")
+        a = c
+    return out
+
+
+def parse_dip(text_str, base_env=None, pieces=None):
     """-> ('ok', env) | ('err', exception name, message)"""
     from scinumtools.dip import DIP
     speedup()
@@ -97,7 +110,8 @@ def parse_dip(text_str, base_env=None):
     name = f"verif{os.getpid()}x{_COUNT[0]}"
     try:
         with DIP(base_env, name=name) if base_env is not None else DIP(name=name) as p:
-            p.add_string(text_str)
+            for piece in (pieces or [text_str]):
+                p.add_string(piece)
             env = p.parse()
         return ("ok", env)
     except Exception as e:
